@@ -338,6 +338,78 @@ ch{k} = set()
 def ci{k}(x: Iterator[int], y: Generator[int, str, bytes], z: Awaitable[None]): return list(x)
 '''
 
+  @add
+  def hidden_bases(r, k):
+    # classes whose base is NOT visible at module scope: output._class_to_def folds the
+    # base into the subclass (pytd_utils.MergeBaseClass); overridden and inherited members,
+    # same and different types, 1-2 levels, optionally next to a visible base
+    v1, v2 = r.sample(["1", "'s'", "b'x'", "[1]", "1.5", "None", "(1, 'a')"], 2)
+    same = r.choice([v1, v1, v2])
+    ret1, ret2 = r.sample(["1", "'s'", "[self]", "None", "b''", "{'k': 1}"], 2)
+    how = r.choice(["factory", "factory_arg", "local_alias", "nested_in_class", "two_level"])
+    visible = r.choice(["", "", f", Vis{k}"])
+    parts = [f'''
+class Vis{k}:
+  vis_attr = 0
+  def vis_m(self): return 0
+  def shared{k}(self, a): return a
+''']
+    hidden_body = f'''
+    limit = {v1}
+    keep = {v2}
+    def size(self): return {ret1}
+    def label(self, x=1): return str(x)
+    def shared{k}(self, a, b=2): return b
+    @staticmethod
+    def st(a): return a
+    @classmethod
+    def cm(cls): return cls
+    @property
+    def pr(self): return {ret1}
+'''
+    if how == "factory":
+      parts.append(f"def make{k}():\n  class H{k}:{hidden_body}  return H{k}\n")
+      base = f"make{k}()"
+    elif how == "factory_arg":
+      parts.append(f"def make{k}(flag):\n  class H{k}:{hidden_body}  return H{k}\n")
+      base = f"make{k}(True)"
+    elif how == "local_alias":
+      parts.append(f"def make{k}():\n  class H{k}:{hidden_body}  return H{k}\n_Hidden{k} = make{k}()\n")
+      parts.append(f"del_later{k} = 1\n")
+      base = f"_Hidden{k}"
+    elif how == "nested_in_class":
+      ind = hidden_body.replace("\n    ", "\n      ")
+      parts.append(f"class Outer{k}:\n  @staticmethod\n  def make():\n    class H{k}:{ind}    return H{k}\n")
+      base = f"Outer{k}.make()"
+    else:
+      parts.append(f"def make{k}():\n  class G{k}:\n    deep = {v2}\n    limit = {v2}\n    def size(self): return {ret2}\n"
+                   f"    def deep_m(self): return 1\n  class H{k}(G{k}):{hidden_body}  return H{k}\n")
+      base = f"make{k}()"
+    over = []
+    if r.random() < 0.8:
+      over.append(f"  def size(self): return {r.choice([ret1, ret2])}")
+    if r.random() < 0.5:
+      over.append(f"  limit = {r.choice([same, v2])}")
+    if r.random() < 0.3:
+      over.append(f"  def label(self, x=1, y=2): return y")
+    if r.random() < 0.3:
+      over.append(f"  @property\n  def pr(self): return {ret2}")
+    if r.random() < 0.3:
+      over.append(f"  @staticmethod\n  def st(a, b=1): return b")
+    if r.random() < 0.3:
+      over.append(f"  def shared{k}(self, a): return [a]")
+    if r.random() < 0.3:
+      over.append(f"  own = {v1}\n  def own_m(self): return self.limit")
+    if not over:
+      over.append("  pass")
+    parts.append(f"class Widget{k}({base}{visible}):\n" + "\n".join(over) + "\n")
+    if r.random() < 0.5:
+      parts.append(f"class Sub{k}(Widget{k}):\n  def size(self): return 2.5\n  limit = 2.5\n")
+    parts.append(f"w{k} = Widget{k}()\nws{k} = w{k}.size()\nwl{k} = w{k}.label()\n")
+    if how == "local_alias":
+      parts.append(f"del _Hidden{k}\n")
+    return "".join(parts)
+
   return S
 
 
